@@ -37,11 +37,12 @@ def isOther : Exec → Bool
   | .other _ => true
   | _ => false
 
-/-- a slot is consistent: enough stack is demanded for what `execute` pops, the memory-size
+/-- a slot is consistent: an untranscribed `execute` comes only with an untranscribed (or no)
+memory-size function; for a transcribed one enough stack is demanded for what `execute` pops, the memory-size
 function is the one `execute` needs, a memory-size function never comes without a gas
 function (which is what bounds the resize), `dup`/`swap` parameters are positive. -/
 def slotOK (i : OpInfo) : Bool :=
-  isOther i.exec ||
+  (isOther i.exec && (match i.memSize with | .none => true | .other _ => true | _ => false)) ||
     (decide (arity i.exec ≤ i.minStack) && (i.memSize == expectedMem i.exec) &&
      ((i.memSize == .none) || !(i.dynGas == .none)) &&
      (match i.exec with | .dup n => decide (0 < n) | .swap n => decide (0 < n) | _ => true))
